@@ -18,5 +18,9 @@ CLAIMS["C05"] = {
     "text": "Proof (all registry states, contexts, ids; unbounded) that register_provide_reference / unregister_provide_reference / managed_provide_cache preserve the global invariant of the three provide registries with a ghost set of Active providers (an Active or referenced provider's data is always in provide_cache - 'however many siblings share the provider'), with exact set/map postconditions (registered under every visible inject key; removed everywhere; provider data deleted exactly when unreferenced, never while Active), on normal and exceptional exit of the provider body.",
     "note": "Trusted: Django Context stub (layers, top-most lookup, flatten), A-ID (component ids are not provider ids), the with-body is modelled as arbitrary GInv-preserving steps that may raise anything. Composition to the property statement (layer stack mirrors lexical nesting; registration precedes get_context_data) is argued in DESIGN.md, not machine-checked. get/set_provided_context_var and ProvideNode.render not yet under contract.",
 }
-NOT_APPLICABLE = {p: NOT_BUILT for p in ["C01","C02","C03","C04","C06","C09","C10","C11","C12","C13","C14","C16","C17","C19","C20"]}
+CLAIMS["C17"] = {
+    "text": "Proof (all paths, all allowed/forbidden lists of suffix strings and opaque compiled patterns; unbounded) that _is_path_valid returns exactly (exists allowed entry hitting the path) and not (exists forbidden entry hitting it), where a str entry hits iff the path ends with it; that the regex built for a suffix denotes exactly that suffix (call-site obligation on re.compile); that find_location returns only existing, valid paths below the root (safe_join contract); and, as a ground lemma over the default lists read from app_settings.py, that no path ending in .py/.pyc/.html/.django/.dj/.tpl is exposed.",
+    "note": "Trusted: re.escape / re.compile / Pattern.search stub (meaning known only for re.escape(lit)+'$' or +r'\\Z'), safe_join / os.path stubs, user-supplied compiled patterns are opaque. list()/find() loops over locations are not under contract.",
+}
+NOT_APPLICABLE = {p: NOT_BUILT for p in ["C01","C02","C03","C04","C06","C09","C10","C11","C12","C13","C14","C16","C19","C20"]}
 NOT_APPLICABLE["C07"] = "contracts over sequential calls cannot quantify over thread interleavings; the library holds no locks, so a rely/guarantee encoding would fail every stability obligation and decide nothing (DESIGN.md section 4); exploring schedules is a different technique and is not substituted"
